@@ -48,7 +48,7 @@ theorem share_mu (pc : Core.PC) (v : Core.Ident) (ty : Core.Ty) (s : Core.Stmt) 
               tfvStmt s [], s⟩ :: st.liftedStatements }) := rfl
 
 /-- occurrences of the consumer returned by `share` -/
-theorem share_consNames {c : Core.Term} {st : CompileState} {n : Nat} (hi : Inert c)
+theorem share_consNames {c : Core.Term} {st : CompileState} {n : Nat}
     (hcn : ConsNames c st n) : ConsNames (share c st).1 (share c st).2 n := by
   have hsub : ∀ x ∈ st.usedVars, x ∈ (share c st).2.usedVars := used_sub_of_fresh (fresh_share c st)
   by_cases hmu : ∃ pc v ty s, c = .mu pc v ty s
@@ -78,127 +78,173 @@ theorem share_consNames {c : Core.Term} {st : CompileState} {n : Nat} (hi : Iner
         rw [freshVar_used]
         exact List.mem_cons_of_mem _ h2
 
-/-- the consumer returned by `share` is related to the same stack, with the same bound -/
-theorem share_rel {c : Core.Term} {st : CompileState} {n : Nat} {k : Fun.Stack} {ρ0 : CEnv}
-    (hr : CRel (GP p) q n k c ρ0) (hcn : ConsNames c st n)
-    (hlift : ∀ d ∈ (share c st).2.liftedStatements, d ∈ q.defs) :
-    CRel (GP p) q n k (share c st).1 ρ0 ∧ ConsNames (share c st).1 (share c st).2 n := by
-  have hsub : ∀ x ∈ st.usedVars, x ∈ (share c st).2.usedVars := used_sub_of_fresh (fresh_share c st)
-  refine ⟨?_, share_consNames hr.inert hcn⟩
+/-- a consumer that is a `μ~` has a closure value of its kind -/
+theorem CRel.mu_inv {n : Nat} {k : Fun.Stack} {pc : Core.PC} {v : Core.Ident} {ty : Core.Ty}
+    {s : Core.Stmt} {ρ0 : CEnv} (hr : CRel (GP p) p q n k (.mu pc v ty s) ρ0) :
+    pc = .cns ∧
+    ((Core.isCodata q.codataTypes ty = false ∧ KRel (GP p) p q n k (.mutilde ρ0 v s)) ∨
+     (Core.isCodata q.codataTypes ty = true ∧ KRelD (GP p) p q n k (.mutilde ρ0 v s))) := by
   cases hr with
   | mk hcv hk hi hb hty =>
-    by_cases hmu : ∃ pc v ty s, c = .mu pc v ty s
-    · obtain ⟨pc, v, ty, s, rfl⟩ := hmu
-      have hpc : pc = .cns := by
-        cases pc
-        · exact False.elim hi
-        · rfl
-      subst hpc
-      simp only [Core.cnsVal, Except.ok.injEq] at hcv
-      subst hcv
-      rw [share_mu] at hlift ⊢
-      simp only at hlift ⊢
-      have hmem : ∀ y, y ∈ tfvStmt (.call
-          ⟨(freshName st.usedLabels ("share_" ++ st.currentLabel ++ "_")).1, 0⟩
-          (bindingsToArgs (tfvStmt s [])) ty) [] ↔ y ∈ tfvStmt s [] := by
-        intro y
-        rw [mem_tfv_call, mem_tfvArgs_bindingsToArgs]
-        simp
-      have hbd : BoundOn ((tfvStmt (.call
-          ⟨(freshName st.usedLabels ("share_" ++ st.currentLabel ++ "_")).1, 0⟩
-          (bindingsToArgs (tfvStmt s [])) ty) []).filter (·.var ≠ v)) ρ0 := by
-        intro y hy
-        obtain ⟨h1, h2⟩ := List.mem_filter.1 hy
-        exact hb y (mem_tfv_mu_of ((hmem y).1 h1) (by simpa using h2))
-      refine .mk (cv := .mutilde ρ0 v (.call _ (bindingsToArgs (tfvStmt s [])) ty)) rfl ?_ trivial ?_ hty
-      · exact KRel.shared (d := ⟨⟨(freshName st.usedLabels ("share_" ++ st.currentLabel ++ "_")).1, 0⟩,
-          tfvStmt s [], s⟩) (hlift _ (by simp)) rfl hk hbd (.refl _ _)
-      · intro y hy
-        have h1 := mem_tfv_mu hy
-        have h2 : y ≠ ⟨v, .prd, ty⟩ := by
-          simp only [tfvTerm] at hy
-          rcases mem_bsetExtend _ hy with h | h
-          · simp at h
-          · exact ne_of_mem_bsetRemove ((tfvStmt_spec _ []).1 List.Pairwise.nil) h
-        refine hb y ?_
-        simp only [tfvTerm]
-        exact mem_bsetExtend_of_mem _ (.inr (mem_bsetRemove_of_ne h2 ((hmem y).1 h1)))
-    · have hnm : ∀ pc v ty s, c ≠ .mu pc v ty s := fun pc v ty s e => hmu ⟨pc, v, ty, s, e⟩
-      rw [share_nonmu hnm] at hlift ⊢
-      simp only at hlift ⊢
-      -- the fresh variable is not free in `c`
-      have hx0 : ∀ b ∈ tfvTerm c [], b.var ≠ ⟨(freshVar st).1, 0⟩ := by
-        intro b hb' e
-        have hocc : b ∈ occTerm c := by
-          rcases (tfvTerm_spec c []).2 b hb' with h' | h'
-          · simp at h'
-          · exact h'
-        rcases hcn b hocc with ⟨h1, _⟩ | ⟨_, h2⟩
-        · rw [e] at h1
-          exact freshVar_ne_sig st h1
-        · rw [e] at h2
-          exact freshVar_not_mem st h2
-      have hcut : ∀ y, y ∈ tfvStmt (.cut (coreGetType c)
-          (.var .prd ⟨(freshVar st).1, 0⟩ (coreGetType c)) c) [] → y.var ≠ ⟨(freshVar st).1, 0⟩ →
-          y ∈ tfvTerm c [] := by
-        intro y hy hne
-        rcases mem_tfv_cut.1 hy with h | h
-        · rw [mem_tfv_var] at h
-          subst h
-          exact absurd rfl hne
-        · exact h
-      have hbd1 : BoundOn ((tfvStmt (.cut (coreGetType c)
-          (.var .prd ⟨(freshVar st).1, 0⟩ (coreGetType c)) c) []).filter
-          (·.var ≠ ⟨(freshVar st).1, 0⟩)) ρ0 := by
-        intro y hy
-        obtain ⟨h1, h2⟩ := List.mem_filter.1 hy
-        exact hb y (hcut y h1 (by simpa using h2))
-      have hk1 : KRel (GP p) q n k (.mutilde ρ0 ⟨(freshVar st).1, 0⟩ (.cut (coreGetType c)
+    have hpc : pc = .cns := by
+      cases pc
+      · exact False.elim hi
+      · rfl
+    simp only [Core.cnsVal, Except.ok.injEq] at hcv
+    subst hcv
+    exact ⟨hpc, .inl ⟨by simpa [coreGetType] using hty, hk⟩⟩
+  | mkD hcv hk hi hb hty =>
+    have hpc : pc = .cns := by
+      cases pc
+      · exact False.elim hi
+      · rfl
+    simp only [Core.cnsVal, Except.ok.injEq] at hcv
+    subst hcv
+    exact ⟨hpc, .inr ⟨by simpa [coreGetType] using hty, hk⟩⟩
+
+/-- the consumer returned by `share` is related to the same stack, with the same bound -/
+theorem share_rel {c : Core.Term} {st : CompileState} {n : Nat} {k : Fun.Stack} {ρ0 : CEnv}
+    (hr : CRel (GP p) p q n k c ρ0) (hcn : ConsNames c st n)
+    (hlift : ∀ d ∈ (share c st).2.liftedStatements, d ∈ q.defs) :
+    CRel (GP p) p q n k (share c st).1 ρ0 ∧ ConsNames (share c st).1 (share c st).2 n := by
+  have hsub : ∀ x ∈ st.usedVars, x ∈ (share c st).2.usedVars := used_sub_of_fresh (fresh_share c st)
+  refine ⟨?_, share_consNames hcn⟩
+  have hb := hr.bound
+  by_cases hmu : ∃ pc v ty s, c = .mu pc v ty s
+  · obtain ⟨pc, v, ty, s, rfl⟩ := hmu
+    obtain ⟨hpc, hkind⟩ := hr.mu_inv
+    subst hpc
+    rw [share_mu] at hlift ⊢
+    simp only at hlift ⊢
+    have hmem : ∀ y, y ∈ tfvStmt (.call
+        ⟨(freshName st.usedLabels ("share_" ++ st.currentLabel ++ "_")).1, 0⟩
+        (bindingsToArgs (tfvStmt s [])) ty) [] ↔ y ∈ tfvStmt s [] := by
+      intro y
+      rw [mem_tfv_call, mem_tfvArgs_bindingsToArgs]
+      simp
+    have hbd : BoundOn ((tfvStmt (.call
+        ⟨(freshName st.usedLabels ("share_" ++ st.currentLabel ++ "_")).1, 0⟩
+        (bindingsToArgs (tfvStmt s [])) ty) []).filter (·.var ≠ v)) ρ0 := by
+      intro y hy
+      obtain ⟨h1, h2⟩ := List.mem_filter.1 hy
+      exact hb y (mem_tfv_mu_of ((hmem y).1 h1) (by simpa using h2))
+    have hbnew : BoundOn (tfvTerm (.mu .cns v ty (.call
+        ⟨(freshName st.usedLabels ("share_" ++ st.currentLabel ++ "_")).1, 0⟩
+        (bindingsToArgs (tfvStmt s [])) ty)) []) ρ0 := by
+      intro y hy
+      have h1 := mem_tfv_mu hy
+      have h2 : y ≠ ⟨v, .prd, ty⟩ := by
+        simp only [tfvTerm] at hy
+        rcases mem_bsetExtend _ hy with h | h
+        · simp at h
+        · exact ne_of_mem_bsetRemove ((tfvStmt_spec _ []).1 List.Pairwise.nil) h
+      refine hb y ?_
+      simp only [tfvTerm]
+      exact mem_bsetExtend_of_mem _ (.inr (mem_bsetRemove_of_ne h2 ((hmem y).1 h1)))
+    rcases hkind with ⟨hty, hk⟩ | ⟨hty, hk⟩
+    · refine .mk (cv := .mutilde ρ0 v (.call _ (bindingsToArgs (tfvStmt s [])) ty)) rfl ?_ trivial
+        hbnew (by simpa [coreGetType] using hty)
+      exact KRel.shared (d := ⟨⟨(freshName st.usedLabels ("share_" ++ st.currentLabel ++ "_")).1, 0⟩,
+        tfvStmt s [], s⟩) (hlift _ (by simp)) rfl hk hbd (.refl _ _)
+    · refine .mkD (cv := .mutilde ρ0 v (.call _ (bindingsToArgs (tfvStmt s [])) ty)) rfl ?_ trivial
+        hbnew (by simpa [coreGetType] using hty)
+      exact KRelD.shared (d := ⟨⟨(freshName st.usedLabels ("share_" ++ st.currentLabel ++ "_")).1, 0⟩,
+        tfvStmt s [], s⟩) (hlift _ (by simp)) rfl hk hbd (.refl _ _)
+  · have hnm : ∀ pc v ty s, c ≠ .mu pc v ty s := fun pc v ty s e => hmu ⟨pc, v, ty, s, e⟩
+    rw [share_nonmu hnm] at hlift ⊢
+    simp only at hlift ⊢
+    -- the fresh variable is not free in `c`
+    have hx0 : ∀ b ∈ tfvTerm c [], b.var ≠ ⟨(freshVar st).1, 0⟩ := by
+      intro b hb' e
+      have hocc : b ∈ occTerm c := by
+        rcases (tfvTerm_spec c []).2 b hb' with h' | h'
+        · simp at h'
+        · exact h'
+      rcases hcn b hocc with ⟨h1, _⟩ | ⟨_, h2⟩
+      · rw [e] at h1
+        exact freshVar_ne_sig st h1
+      · rw [e] at h2
+        exact freshVar_not_mem st h2
+    have hcut : ∀ y, y ∈ tfvStmt (.cut (coreGetType c)
+        (.var .prd ⟨(freshVar st).1, 0⟩ (coreGetType c)) c) [] → y.var ≠ ⟨(freshVar st).1, 0⟩ →
+        y ∈ tfvTerm c [] := by
+      intro y hy hne
+      rcases mem_tfv_cut.1 hy with h | h
+      · rw [mem_tfv_var] at h
+        subst h
+        exact absurd rfl hne
+      · exact h
+    have hbd1 : BoundOn ((tfvStmt (.cut (coreGetType c)
+        (.var .prd ⟨(freshVar st).1, 0⟩ (coreGetType c)) c) []).filter
+        (·.var ≠ ⟨(freshVar st).1, 0⟩)) ρ0 := by
+      intro y hy
+      obtain ⟨h1, h2⟩ := List.mem_filter.1 hy
+      exact hb y (hcut y h1 (by simpa using h2))
+    have hmem : ∀ y, y ∈ tfvStmt (.call
+        ⟨(freshName (freshVar st).2.usedLabels
+          ("share_" ++ (freshVar st).2.currentLabel ++ "_")).1, 0⟩
+        (bindingsToArgs (tfvStmt (.cut (coreGetType c)
+          (.var .prd ⟨(freshVar st).1, 0⟩ (coreGetType c)) c) [])) (coreGetType c)) [] ↔
+        y ∈ tfvStmt (.cut (coreGetType c)
+          (.var .prd ⟨(freshVar st).1, 0⟩ (coreGetType c)) c) [] := by
+      intro y
+      rw [mem_tfv_call, mem_tfvArgs_bindingsToArgs]
+      simp
+    have hbd2 : BoundOn ((tfvStmt (.call
+        ⟨(freshName (freshVar st).2.usedLabels
+          ("share_" ++ (freshVar st).2.currentLabel ++ "_")).1, 0⟩
+        (bindingsToArgs (tfvStmt (.cut (coreGetType c)
+          (.var .prd ⟨(freshVar st).1, 0⟩ (coreGetType c)) c) [])) (coreGetType c)) []).filter
+        (·.var ≠ ⟨(freshVar st).1, 0⟩)) ρ0 := by
+      intro y hy
+      obtain ⟨h1, h2⟩ := List.mem_filter.1 hy
+      exact hb y (hcut y ((hmem y).1 h1) (by simpa using h2))
+    have hbnew : BoundOn (tfvTerm (.mu .cns ⟨(freshVar st).1, 0⟩ (coreGetType c) (.call
+        ⟨(freshName (freshVar st).2.usedLabels
+          ("share_" ++ (freshVar st).2.currentLabel ++ "_")).1, 0⟩
+        (bindingsToArgs (tfvStmt (.cut (coreGetType c)
+          (.var .prd ⟨(freshVar st).1, 0⟩ (coreGetType c)) c) [])) (coreGetType c))) []) ρ0 := by
+      intro y hy
+      have h1 := (hmem y).1 (mem_tfv_mu hy)
+      have h2 : y ≠ ⟨⟨(freshVar st).1, 0⟩, .prd, coreGetType c⟩ := by
+        simp only [tfvTerm] at hy
+        rcases mem_bsetExtend _ hy with h | h
+        · simp at h
+        · exact ne_of_mem_bsetRemove ((tfvStmt_spec _ []).1 List.Pairwise.nil) h
+      rcases mem_tfv_cut.1 h1 with h | h
+      · rw [mem_tfv_var] at h
+        exact absurd h h2
+      · exact hb y h
+    cases hty : Core.isCodata q.codataTypes (coreGetType c) with
+    | false =>
+      have hk1 : KRel (GP p) p q n k (.mutilde ρ0 ⟨(freshVar st).1, 0⟩ (.cut (coreGetType c)
           (.var .prd ⟨(freshVar st).1, 0⟩ (coreGetType c)) c)) :=
-        KRel.eta (.mk hcv hk hi hb hty) hx0 hty hbd1 (.refl _ _)
-      have hmem : ∀ y, y ∈ tfvStmt (.call
-          ⟨(freshName (freshVar st).2.usedLabels
-            ("share_" ++ (freshVar st).2.currentLabel ++ "_")).1, 0⟩
-          (bindingsToArgs (tfvStmt (.cut (coreGetType c)
-            (.var .prd ⟨(freshVar st).1, 0⟩ (coreGetType c)) c) [])) (coreGetType c)) [] ↔
-          y ∈ tfvStmt (.cut (coreGetType c)
-            (.var .prd ⟨(freshVar st).1, 0⟩ (coreGetType c)) c) [] := by
-        intro y
-        rw [mem_tfv_call, mem_tfvArgs_bindingsToArgs]
-        simp
-      have hbd2 : BoundOn ((tfvStmt (.call
-          ⟨(freshName (freshVar st).2.usedLabels
-            ("share_" ++ (freshVar st).2.currentLabel ++ "_")).1, 0⟩
-          (bindingsToArgs (tfvStmt (.cut (coreGetType c)
-            (.var .prd ⟨(freshVar st).1, 0⟩ (coreGetType c)) c) [])) (coreGetType c)) []).filter
-          (·.var ≠ ⟨(freshVar st).1, 0⟩)) ρ0 := by
-        intro y hy
-        obtain ⟨h1, h2⟩ := List.mem_filter.1 hy
-        exact hb y (hcut y ((hmem y).1 h1) (by simpa using h2))
+        KRel.eta hr hx0 hty hty hbd1 (.refl _ _)
       refine .mk (cv := .mutilde ρ0 ⟨(freshVar st).1, 0⟩ (.call _ (bindingsToArgs _) (coreGetType c)))
-        rfl ?_ trivial ?_ hty
-      · exact KRel.shared (d := ⟨⟨(freshName (freshVar st).2.usedLabels
-            ("share_" ++ (freshVar st).2.currentLabel ++ "_")).1, 0⟩,
-          tfvStmt (.cut (coreGetType c) (.var .prd ⟨(freshVar st).1, 0⟩ (coreGetType c)) c) [],
-          .cut (coreGetType c) (.var .prd ⟨(freshVar st).1, 0⟩ (coreGetType c)) c⟩)
-          (hlift _ (by simp)) rfl hk1 hbd2 (.refl _ _)
-      · intro y hy
-        have h1 := (hmem y).1 (mem_tfv_mu hy)
-        have h2 : y ≠ ⟨⟨(freshVar st).1, 0⟩, .prd, coreGetType c⟩ := by
-          simp only [tfvTerm] at hy
-          rcases mem_bsetExtend _ hy with h | h
-          · simp at h
-          · exact ne_of_mem_bsetRemove ((tfvStmt_spec _ []).1 List.Pairwise.nil) h
-        rcases mem_tfv_cut.1 h1 with h | h
-        · rw [mem_tfv_var] at h
-          exact absurd h h2
-        · exact hb y h
+        rfl ?_ trivial hbnew (by simpa [coreGetType] using hty)
+      exact KRel.shared (d := ⟨⟨(freshName (freshVar st).2.usedLabels
+          ("share_" ++ (freshVar st).2.currentLabel ++ "_")).1, 0⟩,
+        tfvStmt (.cut (coreGetType c) (.var .prd ⟨(freshVar st).1, 0⟩ (coreGetType c)) c) [],
+        .cut (coreGetType c) (.var .prd ⟨(freshVar st).1, 0⟩ (coreGetType c)) c⟩)
+        (hlift _ (by simp)) rfl hk1 hbd2 (.refl _ _)
+    | true =>
+      have hk1 : KRelD (GP p) p q n k (.mutilde ρ0 ⟨(freshVar st).1, 0⟩ (.cut (coreGetType c)
+          (.var .prd ⟨(freshVar st).1, 0⟩ (coreGetType c)) c)) :=
+        KRelD.eta hr hx0 hty hty (hcn.sig_lt (Nat.le_refl n))
+          (fun e => absurd e (freshVar_ne_sig st)) hbd1 (.refl _ _)
+      refine .mkD (cv := .mutilde ρ0 ⟨(freshVar st).1, 0⟩ (.call _ (bindingsToArgs _) (coreGetType c)))
+        rfl ?_ trivial hbnew (by simpa [coreGetType] using hty)
+      exact KRelD.shared (d := ⟨⟨(freshName (freshVar st).2.usedLabels
+          ("share_" ++ (freshVar st).2.currentLabel ++ "_")).1, 0⟩,
+        tfvStmt (.cut (coreGetType c) (.var .prd ⟨(freshVar st).1, 0⟩ (coreGetType c)) c) [],
+        .cut (coreGetType c) (.var .prd ⟨(freshVar st).1, 0⟩ (coreGetType c)) c⟩)
+        (hlift _ (by simp)) rfl hk1 hbd2 (.refl _ _)
 
 /-- `if leaf then (c, st) else share c st` -/
 theorem shareIf_rel {c : Core.Term} {st : CompileState} {n : Nat} {k : Fun.Stack} {ρ0 : CEnv}
-    (b : Bool) (hr : CRel (GP p) q n k c ρ0) (hcn : ConsNames c st n)
+    (b : Bool) (hr : CRel (GP p) p q n k c ρ0) (hcn : ConsNames c st n)
     (hlift : ∀ d ∈ (if b = true then (c, st) else share c st).2.liftedStatements, d ∈ q.defs) :
-    CRel (GP p) q n k (if b = true then (c, st) else share c st).1 ρ0 ∧
+    CRel (GP p) p q n k (if b = true then (c, st) else share c st).1 ρ0 ∧
       ConsNames (if b = true then (c, st) else share c st).1
         (if b = true then (c, st) else share c st).2 n := by
   cases b
